@@ -15,6 +15,7 @@ import esc
 import attr
 import dead
 import rec
+import hom
 
 
 def _c11_fsm(ctx):
@@ -73,6 +74,20 @@ PROPS = {
                        "solvers and Adj::q_bb, plus the cache rule: every MoveToFront cache object is looked up with keys of one index space. "
                        "R-LAZY CACHE: every method that writes an input the cache content depends on erases the cache index on every path. "
                        "The algebraic identities of the generalised inverse are not decided.",
+    },
+    "C09": {
+        "rules": [hom.rule_hom, hom.rule_hom_selector],
+        "explanation": "R-HOM: a dimensional analysis in which the unit is the a priori reference deviation s (weights and v'Pv have degree 2, "
+                       "solver cofactors -2, m0 a priori / a posteriori / m_0() degree 1, residuals, adjusted values, quantiles 0; the source table "
+                       "sa/tables/hom.json gives one reason per entry). An abstract interpretation over the CFGs (degree plus the exponents of m_0() and "
+                       "apriori_m_0(); flow-sensitive locals, callees followed context-sensitively) infers the degree of every value that reaches a "
+                       "writer sink (XML, text, HTML, Octave, SQL), of every statistics accessor of LocalNetwork and of the tabled fields, and "
+                       "requires the demanded degree (0 for standard deviations, covariances, confidence limits, ellipses: 'changing only the a priori "
+                       "reference deviation changes nothing else'), homogeneous sums and comparisons, and m_0() exactly once in a standard deviation. "
+                       "R-HOM-SEL: the reference-deviation type selects Student with the a posteriori and Normal with the a priori value in every function "
+                       "that depends on it (polarity from CFG branch edges), labels sit under the matching polarity, a value written under a name of one "
+                       "deviation is built from that deviation. Anything not modelled on the way to a checked value is exit 2. Not decided: which cofactor, "
+                       "which quantile, the degrees-of-freedom formula, the eigen-decomposition - the arithmetic identities themselves.",
     },
     "C10": {
         "rules": [sib.rule_finish_siblings, mpt.rule_mpt_c10],
